@@ -119,12 +119,26 @@ func (c *Channel) withdrawSubChannel(ctx context.Context, sub *Channel) error {
 	return errors.WithMessage(err, "update parent channel")
 }
 
-func (c *Channel) registerSubChannelFunding(id channel.ID, alloc []channel.Bal) {
+func (c *Channel) registerSubChannelFunding(id channel.ID, initBals channel.Balances) {
 	filter := func(cu ChannelUpdate) bool {
-		expected := *channel.NewSubAlloc(id, alloc, nil)
-		_, containedBefore := c.machine.State().SubAlloc(expected.ID)
-		subAlloc, containedAfter := cu.State.SubAlloc(expected.ID)
-		return !containedBefore && containedAfter && expected.Equal(&subAlloc) == nil
+		cur := c.machine.State()
+		expected := *channel.NewSubAlloc(id, initBals.Sum(), nil)
+		_, containedBefore := cur.SubAlloc(expected.ID)
+		n := len(cur.Locked)
+		if containedBefore || len(cu.State.Locked) != n+1 {
+			return false
+		}
+		// The existing sub-allocations stay as they are and exactly the
+		// expected one is added.
+		if channel.SubAllocsAssertEqual(cur.Locked, cu.State.Locked[:n]) != nil ||
+			expected.Equal(&cu.State.Locked[n]) != nil {
+			return false
+		}
+		// Each participant funds the sub-channel with its own initial balance.
+		if len(initBals) != len(cur.Balances) || len(initBals) == 0 || len(initBals[0]) != len(cur.Balances[0]) {
+			return false
+		}
+		return cur.Balances.Sub(initBals).Equal(cu.State.Balances)
 	}
 	ui := newUpdateInterceptor(filter)
 	c.subChannelFundings.Register(id, ui)
